@@ -262,6 +262,26 @@ def run(cx):
             inst.site(rb, None, "Frame::read CRC comparison")
             ok = seen_cmp <= want_lits and len(seen_cmp) == 2
             if not ok:
+                # `|` is associative and commutative: compare the four shifted bytes as a set
+                from props.shared import _split_top
+
+                def flat(x):
+                    mm_ = re.fullmatch(r"bitor\((.*)\)", x)
+                    if not mm_:
+                        return [x]
+                    out_ = []
+                    for part in _split_top(mm_.group(1)):
+                        out_ += flat(part)
+                    return out_
+                wantA = sorted(flat(A))
+                okc = len(seen_cmp) == 2
+                for l in seen_cmp:
+                    mm_ = re.fullmatch(r"(eq|ne)\((.*)\)", l)
+                    ops_ = _split_top(mm_.group(2)) if mm_ else []
+                    if len(ops_) != 2 or Bc not in ops_ or sorted(flat([o for o in ops_ if o != Bc][0])) != wantA:
+                        okc = False
+                ok = okc and {l[:2] for l in seen_cmp} == {"eq", "ne"}
+            if not ok:
                 inst.violation(rb.path, "CRC comparison", "Frame::read compares `%s`" % sorted(seen_cmp)[0][:200])
         obligations += 1
         if not ok:
